@@ -92,7 +92,7 @@ def restore(n, st):
     return p
 
 
-_SPELL = [0, 0]
+_SPELL = [0, 0, 0]
 
 
 def resolve(p, foreign, operand, as_modulelist=False):
@@ -153,7 +153,20 @@ def apply_real(p, foreign, F, T, api_form):
             f_ops, t_ops = tuple(f_ops), tuple(t_ops)
         elif isinstance(f_ops, list):
             f_ops = as_other_iterable(f_ops, which)         # the sources as any iterable (walked once)
-    p.connect(f_ops, t_ops)
+    # the documented parameter names are part of the method: positionally, by keyword, half and half, through functools.partial
+    _SPELL[2] += 1
+    call = _SPELL[2] % 5
+    if call == 1:
+        p.connect(from_modules=f_ops, to_modules=t_ops)
+    elif call == 2:
+        p.connect(f_ops, to_modules=t_ops)
+    elif call == 3:
+        import functools
+        functools.partial(p.connect, to_modules=t_ops)(f_ops)
+    elif call == 4:
+        p.connect(to_modules=t_ops, from_modules=f_ops)
+    else:
+        p.connect(f_ops, t_ops)
     return "method"
 
 
